@@ -124,6 +124,17 @@ def domain(sort, quick=True):
         return ms + rng.sample(m2, 60 if quick else 300) + list(D.sampled_mesh(rng, 3, 3 if quick else 20, boundary=False))
     if sort == "none":
         return [None]
+    if sort.startswith("Obj:Basis") or sort.startswith("Obj:Av"):
+        from vlib import domains as D
+
+        ns = repo.namespace()
+        ps = D.perms_upto(4, 2)
+        import random
+
+        rng = random.Random(13)
+        bases = [ns["Basis"](p) for p in ps[:8]] + [ns["Basis"](*rng.sample(ps, 2)) for _ in range(10 if quick else 40)]
+        bases += [ns["Basis"](ns["Perm"]((0, 1, 2)), ns["Perm"]((2, 1, 0))), ns["Basis"](ns["Perm"]((1, 3, 0, 2)), ns["Perm"]((2, 0, 3, 1)))]
+        return [ns["Av"](b) for b in bases] if sort.startswith("Obj:Av") else bases
     if sort.startswith("Perm*"):
         from vlib import domains as D
 
